@@ -5,7 +5,7 @@ import collections, json, os, re
 from . import common as C
 
 FAMILIES = {"C14": ["hub", "errors"], "C01": ["conc", "closures"], "C02": ["nest", "closures"], "C09": ["values"], "C10": ["errors"], "C11": ["closures"],
-            "C13": ["hub"], "C17": ["wire"]}
+            "C13": ["hub", "relay"], "C17": ["wire"]}
 
 
 def expected_iter(n, fail_at):
@@ -198,6 +198,11 @@ def mon_c11(rec):
         elif c["m"] == "IterCount":
             if c["err"] != "" or c["ret"] != "0:0/;1:10/;2:8589934594/":
                 out.append("closure with named integer parameters: the callee's invocations returned %r (error %r), expected '0:0/;1:10/;2:8589934594/'" % (c["ret"], c["err"]))
+        elif c["m"] == "BadClosureArg":
+            if c["err"] == "":
+                out.append("a call passing a function argument that cannot be a closure (no error result) returned a nil error")
+            if c.get("extra") != "0":
+                out.append("after a call with an unusable function argument returned, %s closure registration(s) remain" % c.get("extra"))
         elif c["m"] == "CbFirstUnencodable":
             if c["err"] == "":
                 out.append("a call with an unencodable argument returned a nil error")
@@ -421,6 +426,24 @@ def mon_linkend(rec, pid="C03"):
     return out
 
 
+def mon_relay(rec):
+    """family relay (C13): a handler of link 0 relays over link 1 with its request's context; link 0 ends"""
+    out = []
+    for n in rec.get("notes") or []:
+        out.append(n)
+    if rec.get("hang"):
+        out.append("calls in flight on the other link did not complete after link 0 ended")
+    for c in rec["calls"] or []:
+        if c["m"] == "ProbeOtherLink" and (c["err"] != "" or c["ret"] != "42"):
+            out.append("after link 0 ended (and a call relayed over link 1 with a context of link 0 was aborted), a new call on link 1 from %s returned (%s, %r)" % (c["from"], c["ret"], c["err"]))
+        elif c["m"] == "InFlightOnOtherLink" and (c["err"] != "" or c["ret"] != str(c["tag"])):
+            out.append("the call in flight on link 1 (from %s) when link 0 ended returned (%s, %r)" % (c["from"], c["ret"], c["err"]))
+    for e in rec.get("events") or []:
+        if e["kind"] == "ret" and e["m"] == "Relay" and e.get("err") != "context canceled":
+            out.append("the call relayed with the context of a request of the ended link returned (%s, %r), expected that context's error" % (e.get("data"), e.get("err")))
+    return out
+
+
 def mon_enumrace(rec):
     """family enumrace (C14): nothing is enumerated after its disconnect notification"""
     out = []
@@ -556,7 +579,7 @@ def check(res, tier, seed):
                           dict(kind="sys", output=out[-3000:], last=recs[-1] if recs else None))
         mon = MONITORS[pid]
         for r in recs:
-            vs = (mon_c11 if (pid == "C01" and r["family"] == "closures") else mon)(r)
+            vs = (mon_c11 if (pid == "C01" and r["family"] == "closures") else mon_relay if r["family"] == "relay" else mon)(r)
             if vs:
                 hits += 1
                 res.violation("sys-monitor:" + re.sub(r"\d+", "N", vs[0])[:50], "implementation violates %s: %s" % (pid, vs[0]),
